@@ -27,6 +27,7 @@ from __future__ import annotations
 
 import sys
 import threading
+import time
 
 __all__ = ['Scheduler', 'SchedAbort', 'Scripted', 'RandomChooser', 'CoopLock', 'CoopEvent', 'CoopThread', 'explore',
            'choice_cost']
@@ -170,7 +171,15 @@ class Scheduler(object):
             return 'finished'
         self.cur = first
         first.sem.release()
-        ok = self._finished.wait(self.watchdog_s)
+        # the wall clock alone proves nothing (a collection of the big heap a forked worker shares with its parent can take
+        # longer than the watchdog period): the run counts as stuck only when a period passes in which the process used
+        # (almost) no CPU time; a busy process gets up to ten periods
+        ok = False
+        for _ in range(10):
+            cpu0 = time.process_time()
+            ok = self._finished.wait(self.watchdog_s)
+            if ok or time.process_time() - cpu0 < 0.5:
+                break
         if not ok:
             self.aborted = 'watchdog'
             self.abort_info = {'blocked': self._blocked_info(), 'choices': list(self.choices), 'stacks': self._stacks(),
